@@ -150,16 +150,9 @@ func Exec(req *kernel.Request) (resp *kernel.Response) {
 		os.RemoveAll(x.dir)
 		os.RemoveAll(x.dir + "-copy")
 	}()
-	if err := x.boot(); err != nil {
+	if err := x.bootFromTemplate(&cfg); err != nil {
 		resp.Err = "boot: " + err.Error()
 		return
-	}
-	for _, ev := range cfg.InitOps {
-		x.apply(ev)
-		if len(x.viol) > 0 {
-			resp.Err = fmt.Sprintf("init op %s failed: %+v", ev, x.viol[0])
-			return
-		}
 	}
 	for i, ev := range req.Path {
 		x.apply(ev)
@@ -204,6 +197,63 @@ func (x *inst) boot() error {
 	x.m = NewModel(x.cfg.Blocks * SPB)
 	x.m.Open = true
 	x.m.Mode = "RW"
+	return nil
+}
+
+// A template is the closed replica directory (and the model) reached by Create + the configuration's InitOps, built
+// once per worker with the real code.  Every path starts from a hole-preserving copy of it that is opened with the
+// real code (preload on): the root of a search is therefore "the replica reopened after its init history".
+type template struct {
+	dir string
+	m   *Model
+}
+
+var templates = map[string]*template{}
+
+func (x *inst) bootFromTemplate(cfg *Cfg) error {
+	kb, _ := json.Marshal(struct {
+		B int
+		P bool
+		I []string
+	}{cfg.Blocks, cfg.Punch, cfg.InitOps})
+	h := sha1.Sum(kb)
+	key := fmt.Sprintf("%x", h[:8])
+	t := templates[key]
+	if t == nil {
+		tx := &inst{cfg: cfg, dir: filepath.Join(scratch, "tmpl-"+key), cnt: map[string]int{}}
+		os.RemoveAll(tx.dir)
+		if err := tx.boot(); err != nil {
+			return err
+		}
+		for _, ev := range cfg.InitOps {
+			tx.apply(ev)
+			if len(tx.viol) > 0 {
+				return fmt.Errorf("init op %s failed: %+v", ev, tx.viol[0])
+			}
+		}
+		if err := tx.srv.Close(); err != nil {
+			return fmt.Errorf("closing the template: %v", err)
+		}
+		t = &template{dir: tx.dir, m: tx.m.Clone()}
+		templates[key] = t
+	}
+	types.ShouldPunchHoles = cfg.Punch
+	types.DrainOps = types.DrainDone
+	if err := copyDir(t.dir, x.dir); err != nil {
+		return fmt.Errorf("copy template: %v", err)
+	}
+	x.srv = replica.NewServer("127.0.0.1:9502", x.dir, 512, "")
+	if err := x.srv.Open(); err != nil {
+		return fmt.Errorf("open: %v", err)
+	}
+	if err := x.srv.SetReplicaMode("RW"); err != nil {
+		return err
+	}
+	x.m = t.m.Clone()
+	x.m.Open = true
+	x.m.Mode = "RW"
+	x.m.Dirty = false
+	replica.VerifFlushHoles()
 	return nil
 }
 
